@@ -33,6 +33,25 @@ def Lam(ps, body): return {'lam': [list(ps), body]}
 def Call(f, *args): return {'call': [f, list(args)]}
 def App(t, e): return {'app': [t, e]}
 def Comp(elt, clauses, gen=False): return {'comp': {'gen': gen, 'elt': elt, 'cl': [[t, it, list(cs)] for t, it, cs in clauses]}}
+def GenE(elt, clauses): return {'gen': {'elt': elt, 'cl': [[t, it, list(cs)] for t, it, cs in clauses]}}
+def Drain(e): return {'drain': e}
+def SetI(t, i, e): return {'si': [t, i, e]}          # t.__setitem__(i, e)   (expression)
+def SetS(t, i, e): return {'sis': [t, i, e]}         # t[i] = e              (statement)
+
+
+NS_METHODS = ['pop1', 'pop2', 'popitem', 'clear', 'setdefault', 'update', 'setitem', 'delitem', 'ior']
+NS_WITH_ARG = {'pop2', 'setdefault', 'update', 'setitem', 'ior'}
+
+
+NS_PYNAME = {'pop1': 'pop', 'pop2': 'pop', 'popitem': 'popitem', 'clear': 'clear', 'setdefault': 'setdefault',
+             'update': 'update', 'setitem': '__setitem__', 'delitem': '__delitem__', 'ior': '__ior__'}
+
+
+def Ns(meth, key='a', e=None, via='g'):
+    """`globals().meth('key', e)`; via='l': rendered on `locals()` (only where that is the same object: the
+    top level of the code, outside comprehensions / lambdas / class bodies — the caller's business)."""
+    assert meth in NS_METHODS
+    return {'ns': [meth, key, e if (e is not None and meth in NS_WITH_ARG) else C(0)], 'via': via}
 
 
 def As(x, e): return {'as': [x, e]}
@@ -91,6 +110,40 @@ def src_expr(e) -> str:
                 parts.append(f'if {src_expr(cond)}')
         inner = ' '.join(parts)
         return f'[*({inner})]' if c['gen'] else f'[{inner}]'
+    if 'gen' in e:
+        c = e['gen']
+        parts = [src_expr(c['elt'])]
+        for t, it, cs in c['cl']:
+            parts.append(f'for {t} in {src_expr(it)}')
+            for cond in cs:
+                parts.append(f'if {src_expr(cond)}')
+        return '(' + ' '.join(parts) + ')'
+    if 'drain' in e:
+        return f"[*{src_expr(e['drain'])}]"
+    if 'si' in e:
+        t, i, x = e['si']
+        return f'{src_expr(t)}.__setitem__({i}, {src_expr(x)})'
+    if 'ns' in e:
+        m, k, x = e['ns']
+        recv = 'locals()' if e.get('via') == 'l' else 'globals()'
+        if m == 'pop1':
+            return f'{recv}.pop({k!r})'
+        if m == 'pop2':
+            return f'{recv}.pop({k!r}, {src_expr(x)})'
+        if m == 'popitem':
+            return f'({recv}.popitem(), None)[1]'
+        if m == 'clear':
+            return f'{recv}.clear()'
+        if m == 'setdefault':
+            return f'{recv}.setdefault({k!r}, {src_expr(x)})'
+        if m == 'update':
+            return f'{recv}.update({k}={src_expr(x)})'
+        if m == 'setitem':
+            return f'{recv}.__setitem__({k!r}, {src_expr(x)})'
+        if m == 'delitem':
+            return f'{recv}.__delitem__({k!r})'
+        if m == 'ior':
+            return f'({recv}.__ior__({{{k!r}: {src_expr(x)}}}), None)[1]'
     raise ValueError(e)
 
 
@@ -113,6 +166,9 @@ def src_stmt(s) -> list:
         return [src_import(tuple(s['spec']))]
     if 'ex' in s:
         return [src_expr(s['ex'])]
+    if 'sis' in s:
+        t, i, x = s['sis']
+        return [f'{src_expr(t)}[{i}] = {src_expr(x)}']
     if 'def' in s:
         d = s['def']
         lines = [f"def {d['f']}({', '.join(d['ps'])}):"]
@@ -167,6 +223,10 @@ def render(case):
     for op in case['ops']:
         if 'eval' in op:
             op['src'] = src_expr(op['eval'])
+        elif 'evalset' in op:
+            op['src'] = src_expr(op['evalset'][1])
+        elif 'foreach' in op:
+            op['src'] = src_expr(op['foreach'])
         elif 'exec' in op:
             op['src'] = src_block(op['exec'])
         elif 'pyimport' in op:
@@ -211,6 +271,25 @@ def walk_expr(e, f, scope='module', in_comp=False):
             for cond in cs:
                 walk_expr(cond, f, scope, True)
         walk_expr(c['elt'], f, scope, True)
+    elif 'gen' in e:
+        c = e['gen']
+        f('genobj', e, scope, in_comp)
+        for i, (t, it, cs) in enumerate(c['cl']):
+            walk_expr(it, f, scope, in_comp if i == 0 else True)
+            for cond in cs:
+                walk_expr(cond, f, scope, True)
+        walk_expr(c['elt'], f, scope, True)
+    elif 'drain' in e:
+        f('drain', e, scope, in_comp)
+        walk_expr(e['drain'], f, scope, in_comp)
+    elif 'si' in e:
+        f('setitem', e, scope, in_comp)
+        walk_expr(e['si'][0], f, scope, in_comp)
+        walk_expr(e['si'][2], f, scope, in_comp)
+    elif 'ns' in e:
+        f('nsop', e, scope, in_comp)
+        if e['ns'][0] in NS_WITH_ARG:
+            walk_expr(e['ns'][2], f, scope, in_comp)
 
 
 def stmt_exprs(s):
@@ -221,6 +300,8 @@ def stmt_exprs(s):
         return [(s['aug'][1], 'module')]
     if 'ex' in s:
         return [(s['ex'], 'module')]
+    if 'sis' in s:
+        return [(s['sis'][2], 'module'), (s['sis'][0], 'module')]
     if 'def' in s:
         d = s['def']
         return [(e, 'func') for _, e in d['body']] + [(d['ret'], 'func')]
@@ -248,6 +329,10 @@ def expr_facts(e):
             facts.add('read-in-comprehension')
         if kind in ('listcomp', 'genexp'):
             facts.add(f"for-clauses:{len(node['comp']['cl'])}")
+        if kind == 'genobj':
+            facts.add(f"for-clauses:{len(node['gen']['cl'])}")
+        if kind == 'nsop':
+            facts.add('nsop:' + node['ns'][0])
         if kind == 'name' and node['n'].startswith('__'):
             facts.add('dunder-read')
     walk_expr(e, f)
@@ -265,6 +350,10 @@ def block_facts(b):
                 facts.add(kind)
                 if kind in ('listcomp', 'genexp'):
                     facts.add(f"for-clauses:{len(node['comp']['cl'])}")
+                if kind == 'genobj':
+                    facts.add(f"for-clauses:{len(node['gen']['cl'])}")
+                if kind == 'nsop':
+                    facts.add('nsop:' + node['ns'][0])
                 if kind == 'name' and (sc == 'func' or scope == 'func'):
                     facts.add('read-in-function')
             walk_expr(e, f, 'func' if scope == 'func' else 'module')
@@ -330,6 +419,24 @@ def _scopes(e, sc, comps):
     elif 'app' in e:
         _scopes(e['app'][0], sc, comps)
         _scopes(e['app'][1], sc, comps)
+    elif 'drain' in e:
+        _scopes(e['drain'], sc, comps)
+    elif 'si' in e:
+        _scopes(e['si'][0], sc, comps)
+        _scopes(e['si'][2], sc, comps)
+    elif 'ns' in e:
+        if e['ns'][0] in NS_WITH_ARG:
+            _scopes(e['ns'][2], sc, comps)
+    elif 'gen' in e:
+        c = e['gen']
+        _scopes(c['cl'][0][1], sc, comps)
+        inner = _Sc('func', sc, [t for t, _, _ in c['cl']])
+        for i, (t, it, cs) in enumerate(c['cl']):
+            if i:
+                _scopes(it, inner, comps)
+            for x in cs:
+                _scopes(x, inner, comps)
+        _scopes(c['elt'], inner, comps)
     else:
         c = e['comp']
         _scopes(c['cl'][0][1], sc, comps)          # the first iterable belongs to the enclosing scope
@@ -374,8 +481,8 @@ def _merge_quirk(comps):
 def inlining_quirk(op):
     """Can CPython 3.12.1's symbol merge of inlined comprehensions change a name resolution in this op?"""
     comps = []
-    if 'eval' in op:
-        _scopes(op['eval'], _Sc('module', None), comps)
+    if 'eval' in op or 'evalset' in op or 'foreach' in op:
+        _scopes(op_expr(op), _Sc('module', None), comps)
     elif 'exec' in op:
         top = _Sc('module', None)
         for s in op['exec']:
@@ -404,6 +511,17 @@ def inlining_quirk(op):
     else:
         return False
     return _merge_quirk(comps)
+
+
+def op_expr(op):
+    """The `!py` expression of an op that evaluates one."""
+    if 'eval' in op:
+        return op['eval']
+    if 'evalset' in op:
+        return op['evalset'][1]
+    if 'foreach' in op:
+        return op['foreach']
+    return None
 
 
 def eval_construct(e):
@@ -593,6 +711,11 @@ class World:
                 return {'seen': seen[id(v)]}
             k = seen[id(v)] = len(seen)
             return {'fn': k}
+        if isinstance(v, types.GeneratorType):
+            if id(v) in seen:
+                return {'seen': seen[id(v)]}
+            k = seen[id(v)] = len(seen)
+            return {'gen': k}
         if v is builtins.__dict__ or (type(v) is dict and v.get('__name__') == 'builtins' and 'len' in v):
             # (a deep copy / pickle round trip of a context that save()d __builtins__ holds a copy)
             return tok('special', '__builtins__')
@@ -631,7 +754,7 @@ def carries_code_objects(context):
         if id(v) in seen:
             continue
         seen.add(id(v))
-        if isinstance(v, types.FunctionType) or (isinstance(v, type) and v.__name__ == 'Cq'):
+        if isinstance(v, (types.FunctionType, types.GeneratorType)) or (isinstance(v, type) and v.__name__ == 'Cq'):
             return True
         if type(v) in (list, tuple):
             todo.extend(v)
@@ -697,6 +820,51 @@ def import_probe(w, context, my_imps, cleared, findings, after):
                 {'impl': got, 'expected': {'err': 'NameError'}}))
 
 
+class NoOracle(Exception):
+    """The plain-Python reading cannot be computed for this op without disturbing the run."""
+
+
+class Live(dict):
+    """The plain-Python reading of "context keys, pyimport names and builtins are variables": an ordinary
+    globals dict (what the expression binds itself lands in it and is thrown away with it) whose misses fall
+    through to what the context holds AT THAT MOMENT, then to what pyimport was asked to register (the
+    harness's own record); a KeyError from here sends CPython on to the builtins. Function / generator
+    objects made against it keep it as their globals, like any Python function."""
+    __slots__ = ('lookup',)
+
+    def __missing__(self, k):
+        return self.lookup(k)
+
+
+def holds_generator(v, depth=3):
+    if isinstance(v, types.GeneratorType):
+        return True
+    if depth and type(v) in (list, tuple):
+        return any(holds_generator(x, depth - 1) for x in v)
+    return False
+
+
+OBS_MODULE = 'c14obs'
+_OBS = []
+
+
+def ensure_obs_module():
+    """The step `foreach` sessions run: it only looks (records context['i'] of every iteration)."""
+    m = sys.modules.get(OBS_MODULE)
+    if m is None or not hasattr(m, '_c14'):
+        m = types.ModuleType(OBS_MODULE)
+        m._c14 = True
+
+        def run_step(context):
+            _OBS[-1](context)
+        m.run_step = run_step
+        sys.modules[OBS_MODULE] = m
+
+
+MAKES_CODE = ('lambda', 'def ', ' for ')
+MUTATES = ('.append(', '+=', 'globals()', 'locals()', '.__setitem__(', '] = ')
+
+
 def run_impl(case, upto=None, soft_from=None, hang=None, soft_s=3.0):
     """Run the case's ops against the real pypyr. Returns (steps, monitor_findings, notes).
     Ops from index `soft_from` on are run for the monitors only (the model stopped before them): each gets
@@ -705,16 +873,17 @@ def run_impl(case, upto=None, soft_from=None, hang=None, soft_s=3.0):
     steps[i] = {'res': {'ok': D}|{'err': name}, 'ctx': [[k, D]…], 'imps': …, 'hidden': …}
     monitor_findings = list of (detail, signature, impl_obs); notes = counters."""
     from pypyr.context import Context
-    from pypyr.dsl import PyString
+    from pypyr.dsl import PyString, Step
     import pypyr.steps.py as pystep
     import pypyr.steps.pyimport as pyimportstep
     import pypyr.steps.contextclearall as clearallstep
+    import pypyr.steps.set as setstep
 
+    ensure_obs_module()
     w = World(case)
     context = Context(w.ctx)
     my_imps = {}        # the harness's own record of what pyimport registered (name -> object)
     cleared = set()     # names that were imported once and then wiped by contextclearall
-    rehydrated = None   # how the Context object in use was last rehydrated
     for k, v in case.get('imps', []):
         context.pystring_globals_update({k: w.val(v)})
         my_imps[k] = w.val(v)
@@ -722,7 +891,215 @@ def run_impl(case, upto=None, soft_from=None, hang=None, soft_s=3.0):
     findings = []
     notes = []
     ops = case['ops'] if upto is None else case['ops'][:upto]
-    state = {'context': context, 'rehydrated': None}
+    # twin_of: id(function / generator object made by a real `!py` evaluation) -> the object the plain-Python
+    # reading made for the same expression at the same moment; keep: the real objects (ids stay unique)
+    state = {'context': context, 'rehydrated': None, 'over': {}, 'twin_of': {}, 'keep': [], 'tainted': False,
+             'deferred': False, 'gens_made': False}
+
+    def unshadowed():
+        """Code ran for real that the plain-Python reading did not run alongside: a generator object it may have
+        pulled is now ahead of its twin — no more second evaluations in a session that has generator objects."""
+        if state['gens_made'] and not state['tainted']:
+            state['tainted'] = True
+            notes.append('oracle:off(a-generator-object-may-have-been-pulled-by-code-the-oracle-did-not-shadow)')
+
+
+    def lookup(k):
+        over = state['over']
+        if k in over:
+            return over[k]
+        ctx = state['context']
+        if dict.__contains__(ctx, k):
+            v = dict.__getitem__(ctx, k)
+            t = state['twin_of'].get(id(v))
+            if t is not None:
+                return t
+            if holds_generator(v):
+                raise NoOracle(k)       # pulling the real object here would use it up before the real run
+            return v
+        if k in my_imps:
+            return my_imps[k]
+        raise KeyError(k)
+
+    def plain(src, foreach=False):
+        """{'ok': D} | {'err': name} | None (no oracle). Side table of twins is updated by `pair`."""
+        live = Live()
+        live.lookup = lookup
+        try:
+            v = eval(src, live)
+            if foreach:
+                items = []
+                for it in v:
+                    state['over']['i'] = it
+                    items.append(it)
+                v = items
+        except NoOracle:
+            return None, None
+        except Exception as e:     # noqa
+            return {'err': err_name(e)}, None
+        finally:
+            state['over'] = {}
+        if foreach:
+            seen = {}
+            return {'ok': {'items': [w.dump(x, seen) for x in v]}}, v
+        return {'ok': w.dump(v, {})}, v
+
+    def pair(real, twin):
+        """Remember which plain-Python object stands for a function / generator object pypyr's evaluation made."""
+        if isinstance(real, (types.FunctionType, types.GeneratorType)) and type(real) is type(twin) \
+                and real is not twin:
+            state['twin_of'][id(real)] = twin
+            state['keep'].append(real)
+            state['deferred'] = True
+        elif type(real) is tuple and type(twin) is tuple and len(real) == len(twin):
+            for a, b in zip(real, twin):
+                pair(a, b)
+
+    def name_error_monitor(exc, what, src):
+        """A `!py` expression (deferred bodies included) must be able to read every context key, pyimport name
+        and builtin: `name 'x' is not defined` for such an x is a violation whatever the scope nesting."""
+        if type(exc) is not NameError:
+            return
+        x = getattr(exc, 'name', None)
+        if not x or str(exc) != f"name '{x}' is not defined":
+            return
+        ctx = state['context']
+        if state['rehydrated'] and state['deferred']:
+            return      # an object made before the rehydration reads the Context object left behind
+        tb = exc.__traceback__
+        while tb is not None and tb.tb_next is not None:
+            tb = tb.tb_next
+        if tb is not None and type(tb.tb_frame.f_globals) is dict:
+            return      # raised in a function a py block made: its globals is that block's dict, a COPY
+        where = ('context key' if dict.__contains__(ctx, x) else 'pyimport name' if x in my_imps
+                 else 'builtin' if x in builtins.__dict__ else None)
+        if where is None or x == '__builtins__':
+            return
+        findings.append((
+            f'{what} {src!r}: NameError for {x!r}, which at that moment is a {where}',
+            {'site': 'get_eval_string', 'monitor': 'name-readable', 'what': where,
+             'deferred': 'for ' in src or 'lambda' in src or state['deferred']},
+            {'impl': {'err': 'NameError', 'name': x}}))
+
+    def ns_signature(e):
+        ms = sorted({NS_PYNAME[f[5:]] for f in expr_facts(e) if f.startswith('nsop:')})
+        if not ms:
+            return None
+        return {'site': '_EvalNamespace', 'route': 'namespace-object-method',
+                'method': ms[0] if len(ms) == 1 else 'several'}
+
+    def do_eval_like(op, kind):
+        """eval / evalset / foreach: the three routes that evaluate a `!py` expression."""
+        context = state['context']
+        e = op_expr(op)
+        src = op['src']
+        facts = expr_facts(e)
+        if '__builtins__' in context:
+            notes.append('ctx:reserved-key-__builtins__(hidden from !py by the namespace object; not judged)')
+        if any(m in src for m in MUTATES) and any(m in src for m in MAKES_CODE):
+            state['tainted'] = True     # an object whose body mutates may be kept: no second evaluations any more
+        has_ns = any(f.startswith('nsop:') for f in facts)
+        if 'genobj' in facts:
+            state['gens_made'] = True
+        use_oracle = ('append' not in facts and 'setitem' not in facts and not has_ns and '__builtins__' not in context
+                      and not state['tainted'])
+        oracle = ovalue = None
+        if use_oracle:
+            oracle, ovalue = plain(src, foreach=(kind == 'foreach'))
+            if oracle is None:
+                notes.append('oracle:skipped(would-consume-a-generator-object)')
+        elif state['tainted']:
+            notes.append('oracle:skipped(session-keeps-a-mutating-function-object)')
+        if oracle is None:
+            unshadowed()
+        exc = None
+        if kind == 'eval':
+            before = snapshot(context)
+            before_map = dict(dict.items(context))
+            try:
+                res = ('ok', PyString(src).get_value(context))
+            except Exception as ex:     # noqa: the expression's own exception is an observation
+                exc = ex
+                res = ('err', err_name(ex))
+            expect = before
+        elif kind == 'evalset':
+            key = op['evalset'][0]
+            dict.__setitem__(context, 'set', {key: PyString(src)})
+            before = snapshot(context)
+            before_map = dict(dict.items(context))
+            try:
+                setstep.run_step(context)
+                res = ('ok', dict.__getitem__(context, key))
+            except Exception as ex:     # noqa
+                exc = ex
+                res = ('err', err_name(ex))
+            expect = [(k, i) for k, i in before if k != 'set']
+            if res[0] == 'ok':
+                if any(k == key for k, _ in expect):
+                    expect = [(k, id(res[1]) if k == key else i) for k, i in expect]
+                else:
+                    expect.append((key, id(res[1])))
+        else:
+            rec = []
+            _OBS.append(lambda c: rec.append(dict.get(c, 'i')))
+            before = snapshot(context)
+            before_map = dict(dict.items(context))
+            try:
+                Step({'name': OBS_MODULE, 'foreach': PyString(src)}).run_step(context)
+                res = ('ok', rec)
+            except Exception as ex:     # noqa
+                exc = ex
+                res = ('err', err_name(ex))
+            finally:
+                _OBS.pop()
+            expect = list(before)
+            if rec:
+                if any(k == 'i' for k, _ in expect):
+                    expect = [(k, id(rec[-1]) if k == 'i' else i) for k, i in expect]
+                else:
+                    expect.append(('i', id(rec[-1])))
+        after = snapshot(context)
+        if after != expect:
+            what = {'eval': '!py', 'evalset': 'set: !py', 'foreach': 'foreach: !py'}[kind]
+            sig = ns_signature(e) or {'site': 'get_eval_string', 'construct': eval_construct(e)}
+            if kind != 'eval':
+                sig = dict(sig, route=sig.get('route', kind))
+            findings.append((
+                f'{what} {src!r} changed the context: ' + describe_change(dict(expect_map(expect, before_map, context)), context),
+                sig, {'before': [k for k, _ in before], 'after': [k for k, _ in after]}))
+        if exc is not None:
+            name_error_monitor(exc, {'eval': '!py', 'evalset': 'set: !py', 'foreach': 'foreach: !py'}[kind], src)
+        if oracle is not None:
+            if res[0] == 'err':
+                got = {'err': res[1]}
+            elif kind == 'foreach':
+                seen = {}
+                got = {'ok': {'items': [w.dump(x, seen) for x in res[1]]}}
+            else:
+                got = {'ok': w.dump(res[1], {})}
+            if got != oracle:
+                fresh = Context(dict(dict.items(context)))
+                fresh.pystring_globals_update(my_imps)
+                effect = 'differs'
+                if kind == 'eval' and not state['deferred']:
+                    effect = ('differs-on-the-used-Context-object-only(earlier-evaluations-or-rehydration)'
+                              if eval_obs(w, src, fresh) == oracle else 'differs-on-a-new-Context-too')
+                findings.append((
+                    f'{"foreach: " if kind == "foreach" else ""}!py {src!r}: reads do not see what plain Python sees with '
+                    f'context keys (then pyimport names, then builtins) as variables at that moment',
+                    {'site': 'get_eval_string', 'monitor': 'read-provenance',
+                     'construct': eval_construct(e), 'effect': effect,
+                     'rehydrated': state['rehydrated'], 'route': kind,
+                     'deferred-scope': bool(state['deferred'] or 'genobj' in facts)},
+                    {'impl': got, 'plain': oracle}))
+            elif res[0] == 'ok' and kind != 'foreach':
+                pair(res[1], ovalue)
+        if res[0] == 'ok' and kind != 'foreach' and (
+                isinstance(res[1], (types.FunctionType, types.GeneratorType))
+                or (type(res[1]) is tuple and any(isinstance(x, (types.FunctionType, types.GeneratorType)) for x in res[1]))):
+            state['deferred'] = True
+            state['keep'].append(res[1])
+        return res
 
     def do_op(op):
         context = state['context']
@@ -731,48 +1108,33 @@ def run_impl(case, upto=None, soft_from=None, hang=None, soft_s=3.0):
         before_map = dict(dict.items(context))
         src = op.get('src')
         res = None
+        items = False
         if 'eval' in op:
-            oracle = None
-            facts = expr_facts(op['eval'])
-            # M3 needs a second, side-effect free evaluation: not for expressions that mutate (append); a
-            # context key __builtins__ makes "plain Python with the keys as globals" lose its builtins
-            if '__builtins__' in context:
-                notes.append('ctx:reserved-key-__builtins__(hidden from !py by the namespace object; not judged)')
-            use_oracle = 'append' not in facts and '__builtins__' not in context
-            if use_oracle:
-                oracle = plain_eval(w, src, context, my_imps)
-            try:
-                v = PyString(src).get_value(context)
-                res = ('ok', v)
-            except Exception as e:     # noqa: the expression's own exception is an observation
-                res = ('err', err_name(e))
-            after = snapshot(context)
-            if after != before:
-                findings.append((
-                    f'!py {src!r} changed the context: ' + describe_change(before_map, context),
-                    {'site': 'get_eval_string', 'construct': eval_construct(op['eval'])},
-                    {'before': [k for k, _ in before], 'after': [k for k, _ in after]}))
-            if oracle is not None:
-                got = {'err': res[1]} if res[0] == 'err' else {'ok': w.dump(res[1], {})}
-                if got != oracle:
-                    # same expression on a NEW Context with the same keys and imports: tells a defect of the
-                    # lookup itself from state that the used Context object carries along
-                    fresh = Context(dict(dict.items(context)))
-                    fresh.pystring_globals_update(my_imps)
-                    effect = ('differs-on-the-used-Context-object-only(earlier-evaluations-or-rehydration)'
-                              if eval_obs(w, src, fresh) == oracle else 'differs-on-a-new-Context-too')
-                    findings.append((
-                        f'!py {src!r}: reads do not see what plain Python sees with context keys (then '
-                        f'pyimport names, then builtins) as variables at that moment',
-                        {'site': 'get_eval_string', 'monitor': 'read-provenance',
-                         'construct': eval_construct(op['eval']), 'effect': effect,
-                         'rehydrated': rehydrated},
-                        {'impl': got, 'plain': oracle}))
+            res = do_eval_like(op, 'eval')
+        elif 'evalset' in op:
+            res = do_eval_like(op, 'evalset')
+        elif 'foreach' in op:
+            res = do_eval_like(op, 'foreach')
+            items = res[0] == 'ok'
         elif 'exec' in op:
             w.src_text[src] = 'py'
             dict.__setitem__(context, 'py', src)
             before = snapshot(context)
             before_map = dict(dict.items(context))
+            oracle = None
+            if any(m in src for m in MUTATES) and any(m in src for m in MAKES_CODE):
+                taints = True
+            else:
+                taints = False
+            if not state['tainted'] and not carries_code_objects(context) and '__builtins__' not in before_map \
+                    and 'save' not in before_map:
+                oracle = plain_exec(w, src, before_map)
+            elif state['tainted'] or carries_code_objects(context):
+                notes.append('block-oracle:skipped(context-carries-code-objects)')
+            state['tainted'] = state['tainted'] or taints
+            if 'genobj' in block_facts(op['exec']):
+                state['gens_made'] = True
+            unshadowed()
             try:
                 pystep.run_step(context)
                 res = ('ok', None)
@@ -795,6 +1157,20 @@ def run_impl(case, upto=None, soft_from=None, hang=None, soft_s=3.0):
                     f'py block changed the context beyond what it passed to save(): {", ".join(bad[:6])}',
                     {'site': 'py.run_step', 'effect': kind},
                     {'before': list(before_map), 'after': list(after_map), 'saved_names': sorted(named)}))
+            if oracle is not None:
+                got = {'res': {'err': res[1]} if res[0] == 'err' else {'ok': None},
+                       'ctx': w.dump_env(after_map, {})}
+                if got != oracle:
+                    imp_hit = sorted(k for k in my_imps if k in before_map)
+                    findings.append((
+                        'py block: what the block read / left behind is not what plain Python exec gives with a '
+                        'dict copy of the context as globals and save() copying the named variables back',
+                        {'site': 'py.run_step', 'monitor': 'block-vs-plain-exec',
+                         'effect': ('outcome' if got['res'] != oracle['res'] else 'context-after'),
+                         'pyimport-name-equals-context-key': bool(imp_hit)},
+                        {'impl': got, 'plain': oracle}))
+            if any(isinstance(v, (types.FunctionType, types.GeneratorType)) for v in after_map.values()):
+                state['deferred'] = True
         elif 'pyimport' in op:
             w.src_text[src] = 'pyImport'
             dict.__setitem__(context, 'pyImport', src)
@@ -858,10 +1234,19 @@ def run_impl(case, upto=None, soft_from=None, hang=None, soft_s=3.0):
                         {'before': want, 'after': got, 'type': type(new).__name__}))
                 context = state['context'] = new
                 rehydrated = state['rehydrated'] = used
+                # objects made by earlier evaluations go on reading the Context object left behind: the twins
+                # (which read the object the session works on) no longer stand for them
+                state['twin_of'] = {}
+                if state['deferred']:
+                    state['tainted'] = True
+                    notes.append('rehydrated-with-deferred-objects-alive:no-more-second-evaluations')
                 import_probe(w, context, my_imps, cleared, findings, f'{used} round trip of the Context')
+        context = state['context']
         seen = {}
         if res[0] == 'err':
             rj = {'err': res[1]}
+        elif items:
+            rj = {'ok': {'items': [w.dump(x, seen) for x in res[1]]}}
         else:
             rj = {'ok': w.dump(res[1], seen)}
         step = {'res': rj, 'ctx': w.dump_env(dict(dict.items(context)), seen)}
@@ -885,6 +1270,139 @@ def run_impl(case, upto=None, soft_from=None, hang=None, soft_s=3.0):
     return steps, findings, notes
 
 
+# --------------------------------------------------------------------------
+# IMPLEMENTATION-ONLY stream: the whole mutating surface of the namespace object (`globals()`, `locals()`,
+# `vars()` of a `!py` expression): also the methods / receivers / argument shapes the model has no syntax for
+# (`update({...})`, `setdefault(k)`, `copy()`, `new_child()`, `parents`, `fromkeys`, `__or__`, operator.ior, the
+# object reached through a lambda / a comprehension / a := binding). One monitor, from the property text:
+# evaluating the expression leaves the context's keys, their order and every binding (by identity) and the
+# pyimport namespace as they were. NOT compared with the Lean model.
+# --------------------------------------------------------------------------
+
+NS_RECEIVERS = ['globals()', 'locals()', 'vars()', '(lambda: globals())()', '[globals() for _ in (0,)][0]',
+                '(nsq := globals())', '[*(locals() for _ in (0,))][0]']
+NS_TEMPLATES = [
+    ('pop', '{R}.pop({k!r})'), ('pop', '{R}.pop({k!r}, None)'), ('pop', '{R}.pop({k!r}, {v})'),
+    ('popitem', '{R}.popitem()'), ('popitem', '[{R}.popitem(), {R}.popitem()]'),
+    ('clear', '{R}.clear()'), ('clear', '[{R}.clear(), {k}]'),
+    ('setdefault', '{R}.setdefault({k!r}, {v})'), ('setdefault', '{R}.setdefault({k!r})'),
+    ('update', '{R}.update({k}={v})'), ('update', '{R}.update({{{k!r}: {v}}})'),
+    ('update', '{R}.update([({k!r}, {v})])'), ('update', '{R}.update({{{k!r}: {v}}}, zz={v})'),
+    ('__setitem__', '{R}.__setitem__({k!r}, {v})'), ('__delitem__', '{R}.__delitem__({k!r})'),
+    ('__ior__', '{R}.__ior__({{{k!r}: {v}}})'), ('__ior__', '{R}.__ior__([({k!r}, {v})])'),
+    ('__ior__', 'c14op.ior({R}, {{{k!r}: {v}}})'),
+    ('__setitem__', 'c14op.setitem({R}, {k!r}, {v})'), ('__delitem__', 'c14op.delitem({R}, {k!r})'),
+    ('__or__', '{R}.__or__({{{k!r}: {v}}})'), ('__or__', '{R}.__ror__({{{k!r}: {v}}})'),
+    ('__or__', '({R} | {{{k!r}: {v}}}).pop({k!r})'), ('__or__', '({R} | {{{k!r}: {v}}}).clear()'),
+    ('copy', '{R}.copy().pop({k!r}, None)'), ('copy', '{R}.copy().clear()'), ('copy', '{R}.copy().update({k}={v})'),
+    ('copy', '{R}.copy().__ior__({{{k!r}: {v}}})'), ('copy', '{R}.copy().popitem()'),
+    ('copy', '{R}.copy().__delitem__({k!r})'),
+    ('new_child', '{R}.new_child().__setitem__({k!r}, {v})'), ('new_child', '{R}.new_child().clear()'),
+    ('new_child', '{R}.new_child().pop({k!r}, None)'), ('new_child', '{R}.new_child({{}}).update({k}={v})'),
+    ('new_child', '{R}.new_child().__ior__({{{k!r}: {v}}})'), ('new_child', '{R}.new_child().popitem()'),
+    ('parents', '{R}.parents.clear()'), ('parents', '{R}.parents.pop({k!r}, None)'),
+    ('parents', '{R}.parents.update({k}={v})'), ('parents', '{R}.parents.__ior__({{{k!r}: {v}}})'),
+    ('parents', '{R}.parents.popitem()'), ('parents', '{R}.parents.__delitem__({k!r})'),
+    ('parents', '{R}.parents.setdefault({k!r}, {v})'),
+    ('fromkeys', '{R}.fromkeys([{k!r}], {v})'), ('fromkeys', '{R}.fromkeys([{k!r}]).clear()'),
+]
+NS_KEYS = ['a', 'L', 'n1', 'len', 'zz', '__builtins__']
+
+
+def ns_method_case(method, template, receiver, key, value='b', prebind=False):
+    src = template.format(R=receiver, k=key, v=value)
+    if prebind:
+        src = f'[({key} := {value}), {src}][1]'
+    return {'kind': 'impl-only', 'method': method, 'raw': src,
+            'ctx': [['a', tok('ctx', 'a')], ['b', tok('ctx', 'b')], ['len', tok('ctx', 'len')], ['L', ref(0)]],
+            'heap': [{'l': [tok('ctx', 'L.0')]}]}
+
+
+def run_impl_only(case):
+    """One `!py` source string against a new Context (keys a, b, len, L; pyimport names n1 and the real
+    `operator` module as c14op). Returns (observation, findings)."""
+    import operator
+    from pypyr.context import Context
+    from pypyr.dsl import PyString
+    w = World(case)
+    context = Context(w.ctx)
+    imps = {'n1': marker('imp', 'c14m1.n1'), 'c14op': operator}
+    context.pystring_globals_update(imps)
+    before = snapshot(context)
+    before_map = dict(dict.items(context))
+    try:
+        PyString(case['raw']).get_value(context)
+        obs = {'ok': True}
+    except Exception as e:     # noqa: the expression's own exception is an observation
+        obs = {'err': err_name(e)}
+    findings = []
+    after = snapshot(context)
+    if after != before:
+        findings.append((
+            f"!py {case['raw']!r} changed the context: " + describe_change(before_map, context),
+            {'site': '_EvalNamespace', 'route': 'namespace-object-method', 'method': case['method']},
+            {'before': [k for k, _ in before], 'after': [k for k, _ in after], 'outcome': obs}))
+    got = getattr(context, '_pystring_globals', None)
+    if got is not None and [(k, id(v)) for k, v in got.items()] != [(k, id(v)) for k, v in imps.items()]:
+        findings.append((
+            f"!py {case['raw']!r} changed the pyimport namespace: now {sorted(got)}",
+            {'site': '_EvalNamespace', 'route': 'namespace-object-method', 'method': case['method'],
+             'effect': 'pyimport-namespace-changed'},
+            {'before': sorted(imps), 'after': sorted(got), 'outcome': obs}))
+    # and a later evaluation still reads every key and import
+    for name, obj in list(before_map.items()) + [('n1', imps['n1'])]:
+        if name in before_map and name not in dict.keys(context):
+            continue
+        try:
+            v = PyString(name).get_value(context)
+        except Exception as e:     # noqa
+            v = e
+        if v is not obj:
+            findings.append((
+                f"after !py {case['raw']!r} the name {name!r} no longer reads as before",
+                {'site': '_EvalNamespace', 'route': 'namespace-object-method', 'method': case['method'],
+                 'effect': 'later-read-differs'},
+                {'name': name, 'outcome': obs}))
+            break
+    return obs, findings
+
+
+def expect_map(expect, before_map, context):
+    """key -> object for the expected snapshot (ids resolved against what is known)."""
+    by_id = {id(v): v for v in list(before_map.values()) + list(dict.values(context))}
+    return [(k, by_id.get(i)) for k, i in expect]
+
+
+def plain_exec(w, src, before_map):
+    """What plain Python gives for a py block: `exec` with a dict copy of the context as globals (plus
+    builtins and a `save` that copies the named globals / keyword values back) — run on a DEEP COPY of the
+    context's world (marker objects and modules are themselves in the copy, lists are copied with their
+    aliasing), so the block's in-place mutations do not reach the real run. Returns the outcome and the dump
+    of the copied context afterwards; dumps number mutable objects by first appearance, so the copied world
+    and the real one dump alike exactly when they are isomorphic."""
+    try:
+        ctx2 = copy.deepcopy(before_map)
+    except Exception:      # noqa
+        return None
+    g = dict(ctx2)
+    g['__builtins__'] = builtins.__dict__
+
+    def save(*args, **kwargs):
+        d = {}
+        for a in args:
+            d[a] = g[a]
+        d.update(**kwargs)
+        ctx2.update(d)
+    save.__qualname__ = 'get_save.<locals>.save'
+    g['save'] = save
+    try:
+        exec(src, g)
+        res = {'ok': None}
+    except Exception as e:     # noqa
+        res = {'err': err_name(e)}
+    return {'res': res, 'ctx': w.dump_env(ctx2, {})}
+
+
 def describe_change(before_map, context):
     after = dict(dict.items(context))
     out = []
@@ -899,21 +1417,6 @@ def describe_change(before_map, context):
     if not out:
         out.append('key order changed')
     return ', '.join(out[:6])
-
-
-def plain_eval(w, src, context, my_imps):
-    """What plain Python gives for the expression when context keys, then pyimport names, then
-    builtins are ordinary global variables (the reading of 'as plain variables'). The globals dict is
-    thrown away: what the expression binds with := shadows a key for its own later reads, as in Python,
-    and goes nowhere. `my_imps` is the harness's own record of what pyimport was asked to register."""
-    g = {}
-    g.update(my_imps)
-    g.update(dict.items(context))
-    try:
-        v = eval(src, g)
-    except Exception as e:     # noqa
-        return {'err': err_name(e)}
-    return {'ok': w.dump(v, {})}
 
 
 # --------------------------------------------------------------------------
@@ -1034,6 +1537,19 @@ class Gen:
             return N(self.name(sc))
         if x < 0.34:
             return C(r.choice([0, 1, 2, 9]))
+        y = r.random()
+        if y < 0.035:
+            # a generator object as a value (its body runs when somebody pulls)
+            return self.genobj(sc, depth)
+        if y < 0.07:
+            gens = [k for k in sc.get('gens', []) if k in sc['ctxkeys'] or k in sc['bound']]
+            if gens and r.random() < 0.6:
+                return Drain(N(r.choice(gens)))
+            if r.random() < 0.5:
+                return Drain(self.genobj(sc, depth))
+            return Drain(self.seqname(sc))
+        if y < 0.10:
+            return self.nsop(sc, depth)
         can_walrus = not sc['in_iter'] and not (sc['in_comp'] and sc['in_cls'])
         if x < 0.46 and can_walrus:
             cands = [n for n in LOCALS[:4] + PLAIN_KEYS[:3] + SHADOW_KEYS[:1] + sc['ctxkeys'][:2]
@@ -1065,8 +1581,29 @@ class Gen:
         if sc['top']:
             tgt = [k for k in sc['ctxkeys'] if k in LIST_KEYS]
             t = N(r.choice(tgt)) if tgt and r.random() < 0.85 else N(self.name(sc))
+            if r.random() < 0.25:
+                return SetI(t, r.choice([0, 0, 1, 2]), self.expr(dict(sc, top=False), depth - 1))
             return App(t, self.expr(dict(sc, top=False), depth - 1))
         return N(self.name(sc))
+
+    def nsop(self, sc, depth):
+        """A call of one of the namespace object's own methods; keys prefer names that are context keys, names
+        the expression bound itself, pyimport names."""
+        r = self.rng
+        m = r.choice(NS_METHODS)
+        pool = sc['ctxkeys'][:4] + sc['bound'][-3:] + sc['imports'][:2] + ['zz', 'a', 'len']
+        pool = [k for k in pool if k != '__builtins__' and k.isidentifier()]
+        k = r.choice(pool)
+        modlevel = not sc['func'] and not sc['in_comp'] and not sc['in_cls']
+        via = 'l' if modlevel and r.random() < 0.35 else 'g'
+        e = self.expr(dict(sc, top=False), min(depth - 1, 1)) if m in NS_WITH_ARG else None
+        if m in ('setdefault', 'update', 'setitem', 'ior'):
+            sc['bound'].append(k)
+        return Ns(m, k, e, via)
+
+    def genobj(self, sc, depth):
+        c = self.comp(sc, depth)['comp']
+        return {'gen': {'elt': c['elt'], 'cl': c['cl']}}
 
     def comp(self, sc, depth):
         r = self.rng
@@ -1089,9 +1626,9 @@ class Gen:
         elt = self.expr(esc, depth - 1)
         return Comp(elt, clauses, gen)
 
-    def scope(self, ctxkeys, imports, fns=(), bound=()):
+    def scope(self, ctxkeys, imports, fns=(), bound=(), gens=()):
         return dict(ctxkeys=list(ctxkeys), bound=list(bound), imports=list(imports), iters=[], in_comp=False,
-                    in_iter=False, in_cls=False, top=True, func=False, fns=list(fns))
+                    in_iter=False, in_cls=False, top=True, func=False, fns=list(fns), gens=list(gens))
 
     # ---- statements ----
     def block(self, ctxkeys, imports):
@@ -1102,7 +1639,8 @@ class Gen:
         for _ in range(n):
             x = r.random()
             if x < 0.22:
-                t = r.choice([k for k in LOCALS[:4] + sc['ctxkeys'][:3] + ['r0', 'r1'] if k != '__builtins__'])
+                t = r.choice([k for k in LOCALS[:4] + sc['ctxkeys'][:3] + sc['imports'][:2] + ['r0', 'r1', 'len']
+                              if k != '__builtins__'])
                 stmts.append(As(t, self.expr(sc, 3)))
                 sc['bound'].append(t)
             elif x < 0.32:
@@ -1115,7 +1653,7 @@ class Gen:
                 t = 'x' if t == '__builtins__' else t
                 stmts.append(Del(t))
             elif x < 0.46:
-                stmts.append(Imp(self.import_spec()))
+                stmts.append(Imp(self.import_spec(sc['ctxkeys'] + sc['bound'] + sc['imports'])))
                 sc['imports'].append(stmts[-1]['imp'][0])
             elif x < 0.58:
                 f = r.choice(FN_NAMES)
@@ -1140,7 +1678,10 @@ class Gen:
                 sc['bound'].append('Cq')
             elif x < 0.80:
                 tgt = [k for k in sc['ctxkeys'] if k in LIST_KEYS]
-                if tgt and r.random() < 0.8:
+                if tgt and r.random() < 0.2:
+                    stmts.append(SetS(N(r.choice(tgt + sc['ctxkeys'][:1])), r.choice([0, 0, 1, 2]),
+                                      self.expr(dict(sc, top=False), 2)))
+                elif tgt and r.random() < 0.8:
                     stmts.append(Ex(App(N(r.choice(tgt)), self.expr(dict(sc, top=False), 3))))
                 else:
                     stmts.append(Ex(self.expr(sc, 3)))
@@ -1172,8 +1713,10 @@ class Gen:
         r = self.rng
         mod = r.choice(MODS)
         aliases = [None, None, 'a', 'x', 'len', 'y']
-        prefer = [p for p in prefer if p.isidentifier() and not p.startswith('__') and p not in ('py', 'pyImport', 'save')]
-        if prefer and r.random() < 0.4:
+        prefer = [p for p in prefer if p.isidentifier() and not p.startswith('__')
+                  and p not in ('py', 'pyImport', 'save', 'set', 'i')]
+        if prefer and r.random() < 0.5:
+            # NAME COLLISION: the alias is a name that is (or was, or will be) a context key / a bound name
             aliases = [r.choice(prefer)]
         if r.random() < 0.3:
             return ('import', mod, r.choice([None, 'a', 'x', 'len', 'n1'] if len(aliases) > 1 else aliases))
@@ -1207,6 +1750,8 @@ class Gen:
         hist = []          # names bound by := in earlier evaluations, imported or deleted earlier
         deep = False       # the Context was pickled / deep-copied: heap cells of the case are stale
         serial = [0]
+        fns = []           # context keys that hold a function object (set: k: !py lambda …; save('f'))
+        gens = []          # context keys that hold a generator object
 
         def fresh_val(k):
             x = r.random()
@@ -1225,12 +1770,48 @@ class Gen:
 
         for _ in range(r.choice([3, 4, 5, 6, 7])):
             x = r.random()
+            if x < 0.10:
+                # set: k: !py <a lambda / generator object / anything> — kept in the context, run later
+                k = r.choice(['f', 'g', 'h', 'k'] + keys[:2])
+                if k in ('py', 'pyImport', 'set', '__builtins__'):
+                    k = 'f'
+                e, what = self.deferred_value(self.scope(keys, imports, fns=fns, bound=hist, gens=gens))
+                ops.append({'evalset': [k, e]})
+                add(k)
+                for lst in (fns, gens):
+                    if k in lst:
+                        lst.remove(k)
+                if what == 'fn':
+                    fns.append(k)
+                elif what == 'gen':
+                    gens.append(k)
+                continue
+            if x < 0.17:
+                live = [g for g in gens if g in keys]
+                sc = self.scope(keys, imports, fns=fns, bound=hist, gens=gens)
+                y = r.random()
+                if live and y < 0.45:
+                    e = N(r.choice(live))
+                elif y < 0.85:
+                    e = self.genobj(sc, r.choice([1, 2, 2]))
+                else:
+                    e = self.expr(sc, 2)
+                ops.append({'foreach': e})
+                add('i')
+                continue
             if x < 0.45:
                 names = list(dict.fromkeys(hist + imports + keys[:4]))
-                if names and r.random() < 0.35:
+                live_f = [f for f in fns if f in keys]
+                live_g = [g for g in gens if g in keys]
+                y = r.random()
+                if live_f and y < 0.3:
+                    e = T(*[Call(N(f)) for f in r.sample(live_f, min(len(live_f), r.choice([1, 1, 2])))])
+                elif live_g and y < 0.45:
+                    e = Drain(N(r.choice(live_g)))
+                elif names and y < 0.6:
                     e = self.probe(names)
                 else:
-                    e = self.expr(self.scope(keys, imports, bound=hist), r.choice([1, 2, 3, 3]))
+                    e = self.expr(self.scope(keys, imports, fns=fns, bound=hist, gens=gens), r.choice([1, 2, 3, 3]))
                 ops.append({'eval': e})
 
                 def f(kind, node, scope, in_comp):
@@ -1277,20 +1858,109 @@ class Gen:
                 ops.append({'exec': b})
                 for k in sorted(saved_names(b)):
                     add(k)
+                    if k in FN_NAMES and k not in fns:
+                        fns.append(k)
         return render({'ctx': ctx, 'heap': heap, 'ops': ops, 'kind': 'mixed'})
+
+    def deferred_value(self, sc):
+        """An expression whose value is (usually) a function or generator object reading context keys, pyimport
+        names, builtins and names the expression binds itself. Returns (expr, 'fn'|'gen'|'other')."""
+        r = self.rng
+        x = r.random()
+        if x < 0.45:
+            ps = r.sample(LOCALS + PLAIN_KEYS[:2], r.choice([0, 0, 0, 1]))
+            inner = dict(sc, bound=sc['bound'] + ps, iters=[], in_comp=False, in_cls=False, top=False, func=True)
+            body = self.expr(inner, r.choice([1, 2, 2, 3]))
+            if ps:       # keep it callable with no arguments: wrap
+                return Call(Lam(ps, Lam([], body)), *[self.expr(dict(sc, top=False), 1) for _ in ps]), 'fn'
+            return Lam([], body), 'fn'
+        if x < 0.85:
+            return self.genobj(sc, r.choice([1, 2, 2, 3])), 'gen'
+        if x < 0.93:
+            # the creating expression binds a name first: it shadows the context for the deferred scope only
+            t = r.choice(PLAIN_KEYS[:3] + LOCALS[:3])
+            sc['bound'].append(t)
+            inner = dict(sc, iters=[], in_comp=False, in_cls=False, top=False, func=True)
+            return Call(Lam(['p'], Lam([], self.expr(inner, 2))), W(t, self.expr(dict(sc, top=False), 1))), 'fn'
+        return self.expr(sc, 2), 'other'
+
+    def deferred(self):
+        """A short session around ONE deferred nested scope: made by `set: k: !py …` (or handed to foreach),
+        then context updates / deletions / pyimport / contextclearall, then run — and again."""
+        r = self.rng
+        ctx, heap = self.context(with_py=False)
+        keys = [k for k, _ in ctx]
+        ops = []
+        imports = []
+        if r.random() < 0.5:
+            specs = [self.import_spec(keys) for _ in range(r.choice([1, 2]))]
+            ops.append({'ctxset': [['pyImport', tok('special', 'pyImport')]]})
+            keys.append('pyImport')
+            ops.append({'pyimport': pyimport_bindings(specs), 'specs': [list(s) for s in specs]})
+            imports = [b[0] for b in ops[-1]['pyimport']]
+        sc = self.scope(keys, imports)
+        e, what = self.deferred_value(sc)
+        if what == 'gen' and r.random() < 0.5:
+            ops.append({'foreach': e})
+            keys.append('i')
+            what = 'other'
+        else:
+            ops.append({'evalset': ['f', e]})
+            if 'f' not in keys:
+                keys.append('f')
+        serial = 0
+        for _ in range(r.choice([1, 2, 3, 4])):
+            x = r.random()
+            if x < 0.4:
+                ks = list(dict.fromkeys(r.choice(keys[:6] + imports + sc['bound'] + SHADOW_KEYS + PLAIN_KEYS)
+                                        for _ in range(r.choice([1, 2]))))
+                ks = [k for k in ks if k not in ('py', 'pyImport', 'f', 'set')]
+                if ks:
+                    serial += 1
+                    ops.append({'ctxset': [[k, tok('ctx', f'{k}#{serial}')] for k in ks]})
+                    keys += [k for k in ks if k not in keys]
+            elif x < 0.55:
+                k = r.choice([k for k in keys if k != 'f'] or ['a'])
+                ops.append({'ctxdel': [k]})
+                if k in keys:
+                    keys.remove(k)
+            elif x < 0.62 and 'pyImport' in keys:
+                specs = [self.import_spec(keys + sc['bound'])]
+                ops.append({'pyimport': pyimport_bindings(specs), 'specs': [list(s) for s in specs]})
+                imports += [b[0] for b in ops[-1]['pyimport'] if b[0] not in imports]
+            elif x < 0.66:
+                ops.append({'clearall': True})
+                keys = []
+                imports = []
+            elif x < 0.70:
+                ops.append({'rehydrate': 'copy'})
+            else:
+                if what == 'fn':
+                    ops.append({'eval': Call(N('f')) if r.random() < 0.7 else T(Call(N('f')), self.probe(keys[:4] or ['a']))})
+                elif what == 'gen':
+                    ops.append({'foreach': N('f')} if r.random() < 0.5 else {'eval': Drain(N('f'))})
+                else:
+                    ops.append({'eval': self.probe((keys[:4] + ['i']) if keys else ['a'])})
+        if what == 'fn':
+            ops.append({'eval': Call(N('f'))})
+        elif what == 'gen':
+            ops.append({'eval': Drain(N('f'))})
+        return render({'ctx': ctx, 'heap': heap, 'ops': ops, 'kind': 'deferred'})
 
     def session(self):
         r = self.rng
         x = r.random()
-        if x < 0.42:
+        if x < 0.12:
+            return self.deferred()
+        if x < 0.48:
             return self.mixed()
-        kind = 'exec' if x < 0.67 else 'eval'
+        kind = 'exec' if x < 0.72 else 'eval'
         ctx, heap = self.context(with_py=(kind == 'exec'))
         ctxkeys = [k for k, _ in ctx]
         ops = []
         imports = []
-        if r.random() < 0.45:
-            specs = [self.import_spec() for _ in range(r.choice([1, 1, 2, 3]))]
+        if r.random() < 0.5:
+            specs = [self.import_spec(ctxkeys) for _ in range(r.choice([1, 1, 2, 3]))]
             ops.append({'pyimport': pyimport_bindings(specs), 'specs': [list(s) for s in specs]})
             imports = [b[0] for b in ops[-1]['pyimport']]
             ctx.append(['pyImport', tok('special', 'pyImport')])
@@ -1325,7 +1995,7 @@ def payload(case, old=False, fuel=400):
 
 def strip(op):
     return {k: v for k, v in op.items() if k in ('eval', 'exec', 'pyimport', 'ctxset', 'ctxdel', 'clearall',
-                                                 'rehydrate')}
+                                                 'rehydrate', 'evalset', 'foreach')}
 
 
 def collect_names(case):
@@ -1335,8 +2005,8 @@ def collect_names(case):
         if kind == 'name':
             out.add(node['n'])
     for op in case['ops']:
-        if 'eval' in op:
-            walk_expr(op['eval'], f)
+        if op_expr(op) is not None:
+            walk_expr(op_expr(op), f)
         elif 'exec' in op:
             for s in op['exec']:
                 for e, _ in stmt_exprs(s):
@@ -1347,10 +2017,10 @@ def collect_names(case):
 
 
 def compiles(op):
-    if 'eval' not in op and 'exec' not in op:
+    if op_expr(op) is None and 'exec' not in op:
         return True
     try:
-        compile(op['src'], '<c14>', 'eval' if 'eval' in op else 'exec')
+        compile(op['src'], '<c14>', 'exec' if 'exec' in op else 'eval')
         return True
     except SyntaxError:
         return False
